@@ -6,7 +6,7 @@ patch="$1"; shift
 cd /repo || exit 2
 if ! git diff --quiet; then echo "refusing: /repo has uncommitted changes"; exit 2; fi
 git apply "$patch" || { echo "patch does not apply"; exit 2; }
-trap 'git -C /repo checkout -- . ' EXIT
+trap 'git -C /repo checkout -- . ; /verif/check build-sim >/dev/null 2>&1' EXIT
 rc_all=0
 for p in "$@"; do
   extra=""
